@@ -186,6 +186,20 @@ def coq_make(ctx, targets, timeout=1500):
     return out
 
 
+def coqchk(ctx, module, timeout=1500):
+    with CoqLock():
+        rc, out = run(["coqchk", "-silent", "-o", "-Q", COQ, "Verif", "Verif." + module], cwd=COQ, timeout=timeout)
+    open(os.path.join(ctx.work, "coqchk.log"), "w").write(out)
+    if rc != 0:
+        raise Broken("coqchk rejects the compiled closure of %s" % module, out[-3000:])
+    m = re.search(r"\* Axioms:(.*?)\n\s*\n\* Constants/Inductives relying on type-in-type:(.*?)\n", out, re.S)
+    ax = " ".join(m.group(1).split()) if m else "?"
+    ctx.extra_coverage["coqchk"] = {"cmd": "coqchk -silent -o -Q /verif/coq Verif Verif.%s" % module,
+                                    "axioms": ax, "ok": True}
+    if ax not in ("<none>",):
+        ctx.notes.append("coqchk reports axioms in the loaded closure: " + ax)
+
+
 def theorem_names(vfile):
     src = strip_coq_comments(open(os.path.join(COQ, vfile)).read())
     return re.findall(r"^\s*(?:Theorem|Lemma|Corollary)\s+([A-Za-z0-9_']+)", src, re.M)
@@ -513,7 +527,9 @@ class Prop:
         pass
 
     def thorough_extra(self, ctx):
-        pass
+        """Thorough tier: re-check the compiled closure of the property theorems with the
+        independent checker coqchk and record the axioms it reports."""
+        coqchk(ctx, self.properties_module)
 
 
 def standard_check(P, ctx, replay=None):
